@@ -264,7 +264,12 @@ class _Gen:
             op = r.choice(["+", "+", "*", "-", "*"])
             if self.kn.precision in ("f32", "f64") and r.random() < self.kn.p_datadiv:
                 # data division whose divisor is itself a product / quotient / difference (grouping matters)
-                d = r.choice([f"({self.rhs(2)} * {self.rhs(2)})", f"({self.rhs(2)} / {self.rhs(2)})", f"({self.rhs(2)} - {self.rhs(2)})", self.rhs(2)])
+                # the divisor always reads data: a quotient of two literals would be folded by simplify into
+                # a floating-point literal (1.0 / 3.0 -> 0.333...), which is precision, not algebra
+                rd = self.read_any()
+                if rd == "1.0":
+                    return f"{self.rhs(depth+1)} {op} {self.rhs(depth+1)}"
+                d = r.choice([f"({rd} * {self.rhs(2)})", f"({self.rhs(2)} / {rd})", f"({rd} - {self.rhs(2)})", rd])
                 return f"{self.rhs(depth+1)} / {d}"
             return f"{self.rhs(depth+1)} {op} {self.rhs(depth+1)}"
         if roll < 0.8:
